@@ -1,8 +1,8 @@
-\* C19 thorough: script lengths 1..8
+\* C19 thorough: script lengths 1..12, four context kinds
 SPECIFICATION LiveSpec
 CONSTANTS
-  Ns = {1, 2, 3, 4, 5, 6, 7, 8}
-  Kinds = {"cancel", "deadline", "background"}
+  Ns = {1, 2, 3, 4, 5, 6, 7, 8, 9, 10, 11, 12}
+  Kinds = {"cancel", "deadline", "derived", "background"}
   Bug = {}
 INVARIANTS TypeOK CancelledReturnClosesConn ErrorIsContexts SuccessMeansAllDone BackgroundAddsNoFailure LiveCtxKeepsConnOpen
 PROPERTIES CancelledLeadsToReturned EventuallyClosed NoStallReturns BackgroundReturns
